@@ -94,6 +94,7 @@ def check_case(sub, case):
         sub.fail("C14|writer-construct|%s|%s" % (label, type(error).__name__), case, repr(error))
         return
     state = model_validio.CheckState(spec)
+    row_objects = {}
     accepted = []
     verdicts = []
     tainted = False
@@ -116,8 +117,11 @@ def check_case(sub, case):
             else:
                 vetoed = state.check_row(row, written)
                 expectation = ("reject", "CheckError", None) if vetoed else ("accept",)
+        # a caller that writes the same row again usually hands over the same list object: keep one object per
+        # distinct row so that a writer which modifies its argument is noticed
+        handed = row_objects.setdefault(tuple(row), list(row))
         try:
-            writer.write_row(list(row))
+            writer.write_row(handed)
             outcome = None
         except errors.DataError as error:
             outcome = error
